@@ -29,24 +29,48 @@ def geometry(c):
     gpts, extent = tuple(c["gpts"]), tuple(float(x) for x in c["extent"])
     dax, day = lam / extent[0] * 1e3, lam / extent[1] * 1e3          # mrad per pixel
     nyq = min(dax * (gpts[0] // 2), day * (gpts[1] // 2))
-    cutoff = {"sub_pixel": 0.4 * min(dax, day), "one_pixel": 1.0 * max(dax, day), "mid": 0.45 * nyq, "near_nyquist": 0.93 * nyq}[c["cutoff"]]
-    return energy, lam, gpts, extent, (dax, day), cutoff
+    return energy, lam, gpts, extent, (dax, day), None
 
 
-def observe(c):
+def cutoff_for(cc, lam, gpts, extent):
+    dax, day = lam / extent[0] * 1e3, lam / extent[1] * 1e3          # mrad per pixel
+    nyq = min(dax * (gpts[0] // 2), day * (gpts[1] // 2))
+    return {"sub_pixel": 0.4 * min(dax, day), "one_pixel": 1.0 * max(dax, day), "mid": 0.45 * nyq, "mid_b": 0.53 * nyq, "near_nyquist": 0.93 * nyq}[cc]
+
+
+def build(kind, energy, extent, gpts, cutoff, soft, spread, ab):
     import abtem
-    energy, lam, gpts, extent, (dax, day), cutoff = geometry(c)
-    ev = {"kind": c["kind"], "case": c, "raised": False, "soft": bool(c["soft"]), "min_fp": 0, "max_fp": 0, "at_zero": 0, "n_inner": 0,
-          "n_outer": 0, "inner_min": 0, "inner_max": 0, "outer_min": 0, "outer_max": 0, "binary": True, "excess_fp": 0}
+    if kind == "aperture":
+        return abtem.Aperture(semiangle_cutoff=cutoff, soft=soft, energy=energy, extent=extent, gpts=gpts)
+    if kind == "temporal":
+        return abtem.transfer.TemporalEnvelope(focal_spread=FOCAL[spread], energy=energy, extent=extent, gpts=gpts)
+    if kind == "spatial":
+        return abtem.transfer.SpatialEnvelope(angular_spread=ANGULAR[spread], energy=energy, extent=extent, gpts=gpts, **ABS[ab])
+    return abtem.CTF(focal_spread=FOCAL[spread], angular_spread=ANGULAR[(spread + 1) % 3], semiangle_cutoff=cutoff, soft=soft, energy=energy,
+                     extent=extent, gpts=gpts, **ABS[ab])
+
+
+def measure(obj, kind, energy, extent, gpts, cutoff, soft, case):
+    """Observations of one evaluation of `obj`, judged against the geometry of the parameters passed in (the CURRENT ones)."""
+    import abtem
+    from abtem.core.energy import energy2wavelength
+    lam = energy2wavelength(energy)
+    dax, day = lam / extent[0] * 1e3, lam / extent[1] * 1e3
+    ev = {"kind": kind, "case": case, "raised": False, "soft": bool(soft), "min_fp": 0, "max_fp": 0, "at_zero": 0, "n_inner": 0,
+          "n_outer": 0, "inner_min": 0, "inner_max": 0, "outer_min": 0, "outer_max": 0, "binary": True, "excess_fp": 0,
+          "n_axis_inner": 0, "n_axis_outer": 0, "axis_inner_min": 0, "axis_outer_max": 0, "shape_ok": True}
     try:
         kx = np.fft.fftfreq(gpts[0], extent[0] / gpts[0])
         ky = np.fft.fftfreq(gpts[1], extent[1] / gpts[1])
         alpha = np.sqrt(kx[:, None] ** 2 + ky[None, :] ** 2) * lam * 1e3          # mrad, independent of abTEM's grid helpers
         half = 0.5 * max(dax, day)
-        if c["kind"] == "aperture":
-            obj = abtem.Aperture(semiangle_cutoff=cutoff, soft=c["soft"], energy=energy, extent=extent, gpts=gpts)
-            k = np.asarray(obj._evaluate_kernel()).real.astype(np.float64)
-            margin = half if c["soft"] else 1e-6 * max(cutoff, 1.0)
+        raw = np.asarray(obj._evaluate_kernel())
+        if raw.shape[-2:] != tuple(gpts):
+            ev["shape_ok"] = False
+            return ev
+        if kind == "aperture":
+            k = raw.real.astype(np.float64)
+            margin = half if soft else 1e-6 * max(cutoff, 1.0)
             inner, outer = alpha < cutoff - margin, alpha > cutoff + margin
             ev["n_inner"], ev["n_outer"] = int(inner.sum()), int(outer.sum())
             if inner.any():
@@ -54,17 +78,22 @@ def observe(c):
             if outer.any():
                 ev["outer_min"], ev["outer_max"] = fixed(k[outer].min()), fixed(k[outer].max())
             ev["binary"] = bool(np.all((k == 0.0) | (k == 1.0)))
-        elif c["kind"] == "temporal":
-            obj = abtem.transfer.TemporalEnvelope(focal_spread=FOCAL[c["spread"]], energy=energy, extent=extent, gpts=gpts)
-            k = np.asarray(obj._evaluate_kernel()).real.astype(np.float64)
-        elif c["kind"] == "spatial":
-            obj = abtem.transfer.SpatialEnvelope(angular_spread=ANGULAR[c["spread"]], energy=energy, extent=extent, gpts=gpts, **ABS[c["ab"]])
-            k = np.asarray(obj._evaluate_kernel()).real.astype(np.float64)
+            if soft:
+                # on a coordinate axis the radial extent of a pixel is that axis' angular sampling: no reading of "half a pixel" is wider
+                ins, outs = [], []
+                for line, a, h in ((k[:, 0], alpha[:, 0], 0.5 * dax), (k[0, :], alpha[0, :], 0.5 * day)):
+                    ins += list(line[a < cutoff - h * 1.0001])
+                    outs += list(line[a > cutoff + h * 1.0001])
+                ev["n_axis_inner"], ev["n_axis_outer"] = len(ins), len(outs)
+                if ins:
+                    ev["axis_inner_min"] = fixed(min(ins))
+                if outs:
+                    ev["axis_outer_max"] = fixed(max(outs))
+        elif kind in ("temporal", "spatial"):
+            k = raw.real.astype(np.float64)
         else:
-            kw = dict(semiangle_cutoff=cutoff, soft=c["soft"], energy=energy, extent=extent, gpts=gpts)
-            ctf = abtem.CTF(focal_spread=FOCAL[c["spread"]], angular_spread=ANGULAR[(c["spread"] + 1) % 3], **kw, **ABS[c["ab"]])
-            ap = abtem.Aperture(**kw)
-            k = np.abs(np.asarray(ctf._evaluate_kernel())).astype(np.float64)
+            ap = abtem.Aperture(semiangle_cutoff=cutoff, soft=soft, energy=energy, extent=extent, gpts=gpts)
+            k = np.abs(raw).astype(np.float64)
             a = np.asarray(ap._evaluate_kernel()).real.astype(np.float64)
             ev["excess_fp"] = fixed(float((k - a).max()))
         ev["min_fp"], ev["max_fp"] = fixed(k.min()), fixed(k.max())
@@ -75,33 +104,100 @@ def observe(c):
     return ev
 
 
+def observe(c):
+    energy, lam, gpts, extent, (dax, day), _ = geometry(c)
+    cutoff = cutoff_for(c["cutoff"], lam, gpts, extent)
+    try:
+        obj = build(c["kind"], energy, extent, gpts, cutoff, c["soft"], c["spread"], c["ab"])
+    except Exception as ex:
+        return {"kind": c["kind"], "case": c, "raised": True, "exc": f"{type(ex).__name__}: {ex}"[:200]}
+    return measure(obj, c["kind"], energy, extent, gpts, cutoff, c["soft"], c)
+
+
+EXTENT_IDX = {1: (8.0, 8.0), 2: (8.0, 12.0), 3: (6.0, 18.0)}
+GPTS_IDX = {1: (16, 16), 2: (17, 24)}
+
+
+def replay_history(h):
+    """One TLC history on one real object; returns the trace (one event per Evaluate)."""
+    from abtem.core.energy import energy2wavelength
+    kind = h[0]["kind"]
+    p = {"energy": 80, "extent": 1, "gpts": 1, "cutoff": "mid", "soft": kind != "aperture", "spread": 1}
+    ab = "cs_defocus" if kind in ("ctf", "spatial") else "none"
+
+    def phys():
+        e, x, g = p["energy"] * 1e3, EXTENT_IDX[p["extent"]], GPTS_IDX[p["gpts"]]
+        return e, x, g, cutoff_for(p["cutoff"], energy2wavelength(e), g, x)
+    e, x, g, cut = phys()
+    trace = []
+    try:
+        obj = build(kind, e, x, g, cut, p["soft"], p["spread"], ab)
+        for i, st in enumerate(h[1:], start=1):
+            a = st["a"]
+            if a == "SetEnergy":
+                p["energy"] = st["v"]; obj.energy = st["v"] * 1e3
+            elif a == "SetExtent":
+                p["extent"] = st["v"]; obj.extent = EXTENT_IDX[st["v"]]
+            elif a == "SetGpts":
+                p["gpts"] = st["v"]; obj.gpts = GPTS_IDX[st["v"]]
+            elif a == "SetSpread":
+                p["spread"] = st["v"]
+                if kind in ("ctf", "temporal"):
+                    obj.focal_spread = FOCAL[st["v"]]
+                if kind in ("ctf", "spatial"):
+                    obj.angular_spread = ANGULAR[(st["v"] + 1) % 3] if kind == "ctf" else ANGULAR[st["v"]]
+            elif a == "Copy":
+                obj = obj.copy()
+            if a in ("SetEnergy", "SetExtent", "SetGpts", "SetCutoff"):
+                if a == "SetCutoff":
+                    p["cutoff"] = st["v"]
+                # the cutoff class is relative to the grid: keep the object's cutoff at the class value of its current geometry
+                if kind in ("aperture", "ctf"):
+                    obj.semiangle_cutoff = phys()[3]
+            if a == "Evaluate":
+                e, x, g, cut = phys()
+                trace.append(measure(obj, kind, e, x, g, cut, p["soft"], {"kind": kind, "history": h[: i + 1], "step": i}))
+    except Exception as ex:
+        trace.append({"kind": kind, "case": {"kind": kind, "history": h}, "raised": True, "exc": f"{type(ex).__name__}: {ex}"[:200]})
+    return trace
+
+
 def tags_for(ev, clauses):
     c = ev["case"]
+    if "history" in c:
+        return {"clauses": sorted(clauses), "kind": c["kind"], "history": [st["a"] for st in c["history"]]}
     return {"clauses": sorted(clauses), "kind": c["kind"], "soft": c["soft"], "cutoff": c["cutoff"], "ab": c["ab"], "spread": c["spread"]}
 
 
-def judge(ctx: Ctx, evs):
-    res = ctx.validate("TransferTrace", [[e] for e in evs], "TransferTrace.cfg")
-    for e, (ok, bad) in zip(evs, res):
+def judge(ctx: Ctx, traces):
+    traces = [t if isinstance(t, list) else [t] for t in traces]
+    res = ctx.validate("TransferTrace", traces, "TransferTrace.cfg")
+    for tr, (ok, bad) in zip(traces, res):
         if not ok:
+            e = tr[bad[0][0] - 1]
             tg = tags_for(e, bad[0][1])
-            ctx.report(tg, {"event": e}, f"{tg['kind']}: {','.join(tg['clauses'])}: {json.dumps(e['case'])[:200]} "
-                       f"min={e['min_fp']} max={e['max_fp']} inner=[{e['inner_min']},{e['inner_max']}] outer=[{e['outer_min']},{e['outer_max']}] "
-                       f"excess={e['excess_fp']} {e.get('exc', '')}")
+            ctx.report(tg, {"event": e}, f"{tg['kind']}: {','.join(tg['clauses'])}: {json.dumps(e['case'])[:300]} "
+                       f"min={e.get('min_fp')} max={e.get('max_fp')} inner=[{e.get('inner_min')},{e.get('inner_max')}] "
+                       f"outer=[{e.get('outer_min')},{e.get('outer_max')}] axis=[{e.get('axis_inner_min')},{e.get('axis_outer_max')}] "
+                       f"excess={e.get('excess_fp')} {e.get('exc', '')}")
 
 
 def self_test(ctx: Ctx):
     base = {"kind": "aperture", "raised": False, "soft": True, "min_fp": 0, "max_fp": 1000000, "at_zero": 1000000, "n_inner": 5, "n_outer": 9,
-            "inner_min": 1000000, "inner_max": 1000000, "outer_min": 0, "outer_max": 0, "binary": False, "excess_fp": 0}
+            "inner_min": 1000000, "inner_max": 1000000, "outer_min": 0, "outer_max": 0, "binary": False, "excess_fp": 0,
+            "n_axis_inner": 3, "n_axis_outer": 4, "axis_inner_min": 1000000, "axis_outer_max": 0, "shape_ok": True}
     b1 = dict(base, outer_max=400000)
     b2 = dict(base, max_fp=1300000)
     b3 = dict(base, kind="ctf", excess_fp=5000)
     b4 = dict(base, kind="temporal", at_zero=900000)
-    res = ctx.validate("TransferTrace", [[base], [b1], [b2], [b3], [b4]], "TransferTrace.cfg")
+    b5 = dict(base, axis_inner_min=700000)
+    b6 = [base, dict(base, inner_min=0)]          # second evaluation of a history judged against stale geometry
+    res = ctx.validate("TransferTrace", [[base], [b1], [b2], [b3], [b4], [b5], b6], "TransferTrace.cfg")
     if not res[0][0] or any(r[0] for r in res[1:]):
         raise Machinery(f"TransferTrace self-test failed: {res}")
     ctx.notes["binding_selftest"] = {"good_accepted": True, "leak_outside_cutoff_rejected": res[1][1], "above_one_rejected": res[2][1],
-                                    "ctf_excess_rejected": res[3][1], "envelope_not_one_at_zero_rejected": res[4][1]}
+                                    "ctf_excess_rejected": res[3][1], "envelope_not_one_at_zero_rejected": res[4][1],
+                                    "wide_edge_on_axis_rejected": res[5][1], "stale_second_evaluation_rejected": res[6][1]}
 
 
 def run(ctx: Ctx):
@@ -121,11 +217,38 @@ def run(ctx: Ctx):
     ctx.notes["scenarios"] = len(cases)
     for e in evs[:1] + evs[-1:]:
         ctx.sample(e)
-    judge(ctx, evs)
+    # histories on one object: evaluate, edit through the public setters / copy, evaluate again
+    hcfg = ("SPECIFICATION Spec\nCONSTANTS\n  MaxLen = %d\n  Emit = TRUE\n  CacheAngularGrid = FALSE\nINVARIANT EvaluationUsesCurrentParameters\n"
+            "INVARIANT EmitHistory\nCHECK_DEADLOCK FALSE\n" % (5 if ctx.tier == "quick" else 6))
+    rh = ctx.design_check("TransferHist", cfg_text=hcfg, label="histories: every evaluation uses the current parameters", workers=1)
+    hists = [json.loads(tlc.tla_value_to_py(s)[1]) for s in rh.printed("HIST")]
+    hists.sort(key=lambda h: json.dumps(h, sort_keys=True))
+    if ctx.tier == "quick":
+        import random
+        rng = random.Random(ctx.seed)
+        rng.shuffle(hists)
+        # stratified: every (kind, set of setter names used) once, then the seeded remainder
+        seen, first, rest = set(), [], []
+        for h in hists:
+            k = (h[0]["kind"], tuple(sorted({st["a"] for st in h[1:]})))
+            (rest if k in seen else first).append(h)
+            seen.add(k)
+        hists = first + rest[:150]
+    htraces = []
+    for h in hists:
+        tr = replay_history(h)
+        if tr:
+            htraces.append(tr)
+        ctx.case("hist:" + json.dumps(h, sort_keys=True))
+    ctx.notes["histories"] = len(htraces)
+    if htraces:
+        ctx.sample(htraces[0][-1])
+    judge(ctx, evs + htraces)
 
 
 def replay(ctx: Ctx, case):
-    ev = observe(case["event"]["case"])
+    c = case["event"]["case"]
+    tr = replay_history(c["history"]) if "history" in c else [observe(c)]
     ctx.case("replay")
-    ctx.sample(ev)
-    judge(ctx, [ev])
+    ctx.sample(tr[-1])
+    judge(ctx, [tr])
